@@ -249,6 +249,70 @@ fn check_frame(leg: &mut Leg, r: &mut Rng, plen: usize) {
         payload[n - 1] = w as u8;
         forced_zero = true;
     }
+    // RFC 1071 lets an implementation add 16-, 32- or 64-bit words and defer the carries; the classic mistake is a fold that
+    // is done once where the folded value carries again.  Random data puts a sum on that boundary once in 2^16 (16-bit words)
+    // or 2^32 (32-bit words) frames, so one frame in six is put there: the last two words of the payload (UDP checksum) or the
+    // addresses (IPv4 header checksum) are chosen so that (carries + low part) of the deferred sum is within 2 of a power of two
+    let (mut src, mut dst) = (src, dst);
+    let mut carry_mode = "";
+    if !forced_zero && r.chance(1, 6) {
+        let w_bits: u32 = if r.bool() { 16 } else { 32 };
+        let wb = (w_bits / 8) as usize;
+        let d: i128 = *r.pick(&[-1i128, 0, 0, 0, 1, 2]);
+        let words = |b: &[u8]| -> u128 { b.chunks(wb).map(|c| c.iter().fold(0u128, |a, x| (a << 8) | *x as u128) << (8 * (wb - c.len()))).sum() };
+        let modulus: u128 = 1u128 << w_bits;
+        let target = |t: u128| -> Option<u128> {
+            // smallest total G >= t with carries(G) + low(G) = 2^W + d after crossing one more multiple of 2^W
+            let k = (t >> w_bits) + 1;
+            let g = (k << w_bits) as i128 + (modulus as i128 - k as i128 + d);
+            let need = g - t as i128;
+            if need >= 0 && (need as u128) <= 2 * (modulus - 1) { Some(need as u128) } else { None }
+        };
+        if r.chance(1, 3) {
+            // IPv4 header: version/ihl/tos/total length, id/flags, ttl 1/protocol 17/checksum 0, source, destination
+            let total_len = (28 + payload.len()) as u16;
+            let mut hdr = vec![0x45, 0, (total_len >> 8) as u8, total_len as u8, 0, 0, 0, 0, 1, 17, 0, 0];
+            if w_bits == 16 {
+                // the upper halves stay random, the lower halves are chosen
+                hdr.extend_from_slice(&[src.octets()[0], src.octets()[1], dst.octets()[0], dst.octets()[1]]);
+            }
+            if let Some(need) = target(words(&hdr)) {
+                let a = need.min(modulus - 1);
+                let b = need - a;
+                if w_bits == 16 {
+                    src = Ipv4Addr::new(src.octets()[0], src.octets()[1], (a >> 8) as u8, a as u8);
+                    dst = Ipv4Addr::new(dst.octets()[0], dst.octets()[1], (b >> 8) as u8, b as u8);
+                } else {
+                    src = Ipv4Addr::from(a as u32);
+                    dst = Ipv4Addr::from(b as u32);
+                }
+                carry_mode = if w_bits == 16 { "ipv4-header-16" } else { "ipv4-header-32" };
+            }
+        } else if payload.len() >= 2 * wb && payload.len() % wb == 0 {
+            let n = payload.len();
+            for x in &mut payload[n - 2 * wb..] {
+                *x = 0;
+            }
+            let udp_len = (8 + n) as u16;
+            let mut stream = Vec::with_capacity(20 + n);
+            stream.extend_from_slice(&src.octets());
+            stream.extend_from_slice(&dst.octets());
+            stream.extend_from_slice(&[0, 17, (udp_len >> 8) as u8, udp_len as u8]);
+            stream.extend_from_slice(&sport.to_be_bytes());
+            stream.extend_from_slice(&dport.to_be_bytes());
+            stream.extend_from_slice(&[(udp_len >> 8) as u8, udp_len as u8, 0, 0]);
+            stream.extend_from_slice(&payload);
+            if let Some(need) = target(words(&stream)) {
+                let a = need.min(modulus - 1);
+                let b = need - a;
+                for k in 0..wb {
+                    payload[n - 2 * wb + k] = (a >> (8 * (wb - 1 - k))) as u8;
+                    payload[n - wb + k] = (b >> (8 * (wb - 1 - k))) as u8;
+                }
+                carry_mode = if w_bits == 16 { "udp-16" } else { "udp-32" };
+            }
+        }
+    }
     let replay = json!({"engine": "c12", "kind": "frame", "payload_len": plen, "src": src.to_string(), "dst": dst.to_string(),
         "sport": sport, "dport": dport, "payload_hex": hex(&payload), "smac": hex(&smac), "dmac": hex(&dmac)});
     let res = guard::timed(&payload, || {
@@ -261,7 +325,9 @@ fn check_frame(leg: &mut Leg, r: &mut Rng, plen: usize) {
         Err(p) => leg.violation(format!("C12/frame/panic/{}", p.class()), format!("{} at {}", p.message, p.location), replay),
         Ok(f) => match frame::decode_udp4(&f) {
             Err(e) => {
-                let class: String = e.chars().filter(|c| !c.is_ascii_digit()).take(40).collect();
+                // the class names what is wrong, not the values: "UDP checksum 0xfffe does not verify (expected 0xfffd)"
+                let class: String = e.split(" (expected").next().unwrap_or("").split_whitespace().filter(|t| !t.starts_with("0x")).collect::<Vec<_>>().join(" ");
+                let class: String = class.chars().filter(|c| !c.is_ascii_digit()).take(40).collect();
                 leg.violation(format!("C12/frame/invalid/{}", class.trim()), e, replay)
             }
             Ok(u) => {
@@ -278,6 +344,9 @@ fn check_frame(leg: &mut Leg, r: &mut Rng, plen: usize) {
                 if forced_zero {
                     leg.count("frames_whose_udp_checksum_computes_to_zero", 1);
                 }
+                if !carry_mode.is_empty() {
+                    leg.count(&format!("frames_on_a_carry_boundary_{}", carry_mode), 1);
+                }
             }
         },
     }
@@ -287,7 +356,7 @@ pub fn run(seed: u64, thorough: bool, shards: u64) -> Leg {
     let mut total = Leg::new(
         "c12-wire-inproc",
         "C12",
-        "canonical DHCP messages (hlen 0..16, NUL-free sname/file, option codes 1..254, value lengths 0..1500 incl. 0, 255, 256, 510, 511) through reference-encode -> erbium decode -> erbium encode -> reference decode; mutated seed bytes accepted by erbium through encode/decode; Fragment::new_udp4 frames for payload lengths 0..1472 decoded with checksum verification; all 65536 flag values for a selecting, a renewing (ciaddr set), a relayed (giaddr set) and an all-fields-set message and for hardware-address lengths 0, 1, 7, 8, 16; distinct = (leg, shape class)",
+        "canonical DHCP messages (hlen 0..16, NUL-free sname/file, option codes 1..254, value lengths 0..1500 incl. 0, 255, 256, 510, 511) through reference-encode -> erbium decode -> erbium encode -> reference decode; mutated seed bytes accepted by erbium through encode/decode; Fragment::new_udp4 frames for payload lengths 0..1472 decoded with checksum verification (one in eight with a UDP checksum that computes to zero, one in six on a carry boundary of 16- or 32-bit-word summation, RFC 1071); all 65536 flag values for a selecting, a renewing (ciaddr set), a relayed (giaddr set) and an all-fields-set message and for hardware-address lengths 0, 1, 7, 8, 16; distinct = (leg, shape class)",
     );
     total.floor = 5_000;
     // (c) all 65536 flag values: exhaustive, single thread, counted once
@@ -391,11 +460,8 @@ pub fn run(seed: u64, thorough: bool, shards: u64) -> Leg {
                 roundtrip_bytes(&mut leg, &b, "havoc");
             }
             // frames: every payload length, sharded; thorough repeats each length with more addresses
-            let reps = if thorough { 40 } else { 1 };
+            let reps = if thorough { 1000 } else { 40 };
             for plen in 0..=1472usize {
-                if !thorough && !(plen < 80 || plen % 7 == 0 || plen > 1440) {
-                    continue;
-                }
                 if plen as u64 % shards == shard {
                     for _ in 0..reps {
                         check_frame(&mut leg, &mut r, plen);
